@@ -22,6 +22,7 @@ import (
 	"runtime"
 	"sort"
 	"strconv"
+	"strings"
 	"sync"
 	"sync/atomic"
 	"testing"
@@ -183,7 +184,8 @@ type plan struct {
 	BodyLen      int    `json:"body_len"`
 	Upgrade      bool   `json:"upgrade"`
 	RespBodyLen  int    `json:"resp_body_len"`
-	ConnClose    bool   `json:"conn_close"`
+	CloseKind    int    `json:"close_kind"` // connection marked to close after the hijacking request: 0 no; 1 'Connection: close' request; 2 HTTP/1.0 request; 3 Server.DisableKeepalive; 4 MaxRequestsPerConn reached; 5 ctx.SetConnectionClose(); 6 ctx.Response.SetConnectionClose()
+	Expect100    int    `json:"expect_100"` // POST hijacking request with 'Expect: 100-continue': 1 client sends body+tail in ONE write after it saw 100 Continue; 2 sends everything at once
 	TailLen      int    `json:"tail_len"`
 	TailKind     string `json:"tail_kind"`
 	Tail2Len     int    `json:"tail2_len"`
@@ -197,7 +199,7 @@ type plan struct {
 	SrvRead      bool   `json:"server_read_timeout"`  // Server.ReadTimeout non-zero
 	SrvWrite     bool   `json:"server_write_timeout"` // Server.WriteTimeout non-zero
 	SrvIdle      bool   `json:"server_idle_timeout"`  // Server.IdleTimeout non-zero
-	PreKinds     []int  `json:"pre_kinds"`            // per ordinary request in front: 0 plain handler; 1 handler calls HijackSetNoResponse(true) and does NOT hijack
+	PreKinds     []int  `json:"pre_kinds"`            // per ordinary request in front: 0 plain handler; 1 handler calls HijackSetNoResponse(true) and does NOT hijack; 2 POST with Expect: 100-continue, body sent (together with all that follows) after 100 Continue
 	PreWait      bool   `json:"pre_wait"`             // the hijacking request is sent only after the requests in front were answered (keep-alive), else pipelined
 	HdrRecv      int    `json:"header_received"`      // 0: no HeaderReceived; 1: per-request ReadTimeout; 2: WriteTimeout; 3: both; 4: empty RequestConfig
 }
@@ -234,7 +236,7 @@ func genPlan(rnd *rand.Rand, ci int) plan {
 	p.WriteBuf = []int{0, 0, 512, 4096}[rnd.Intn(4)]
 	p.Pre = rnd.Intn(4)
 	for k := 0; k < p.Pre; k++ {
-		p.PreKinds = append(p.PreKinds, rnd.Intn(2))
+		p.PreKinds = append(p.PreKinds, rnd.Intn(3)) // 2: POST with Expect: 100-continue whose body arrives in one write with whatever follows
 	}
 	p.PreWait = p.Pre > 0 && rnd.Intn(2) == 0
 	p.Method = []string{"GET", "GET", "POST", "POST", "HEAD"}[rnd.Intn(5)]
@@ -252,7 +254,21 @@ func genPlan(rnd *rand.Rand, ci int) plan {
 			p.RespBodyLen = rnd.Intn(20000)
 		}
 	}
-	p.ConnClose = rnd.Intn(25) == 0
+	if rnd.Intn(4) == 0 {
+		p.CloseKind = 1 + rnd.Intn(6)
+		if p.CloseKind == 3 {
+			p.Pre, p.PreKinds, p.PreWait = 0, nil, false // DisableKeepalive closes after the first request
+		}
+		if rnd.Intn(4) != 0 {
+			p.NoResp = true // the judged combination (a response on a closing connection ends it before the hand-over: observed only)
+		}
+	}
+	if p.Method == "POST" && p.CloseKind != 2 && rnd.Intn(2) == 0 {
+		p.Expect100 = 1 + rnd.Intn(2)
+		if p.BodyLen == 0 {
+			p.BodyLen = 1 + rnd.Intn(300)
+		}
+	}
 	switch rnd.Intn(6) {
 	case 0:
 		p.TailLen = 0
@@ -333,29 +349,52 @@ func runCase(p plan, rnd *rand.Rand) (probs []problem, inc string, info map[stri
 	// script
 	var script bytes.Buffer
 	methods := []string{}
+	var cuts []int     // offsets at which the client pauses until the server asks for more
+	expect := []bool{} // per request: a 100 Continue precedes its final response
 	for k := 0; k < p.Pre; k++ {
+		if k < len(p.PreKinds) && p.PreKinds[k] == 2 {
+			pb := fmt.Sprintf("pre-body-%d-%s", k, strings.Repeat("b", 1+(p.Case+k)%200))
+			fmt.Fprintf(&script, "POST /pre/%d HTTP/1.1\r\nHost: example.com\r\nExpect: 100-continue\r\nContent-Length: %d\r\n\r\n", k, len(pb))
+			cuts = append(cuts, script.Len())
+			script.WriteString(pb)
+			methods = append(methods, "POST")
+			expect = append(expect, true)
+			continue
+		}
 		fmt.Fprintf(&script, "GET /pre/%d HTTP/1.1\r\nHost: example.com\r\n\r\n", k)
 		methods = append(methods, "GET")
+		expect = append(expect, false)
 	}
-	fmt.Fprintf(&script, "%s /hijack HTTP/1.1\r\nHost: example.com\r\n", p.Method)
+	if p.PreWait && script.Len() > 0 {
+		cuts = append(cuts, script.Len())
+	}
+	version := "HTTP/1.1"
+	if p.CloseKind == 2 {
+		version = "HTTP/1.0"
+	}
+	fmt.Fprintf(&script, "%s /hijack %s\r\nHost: example.com\r\n", p.Method, version)
 	if p.Upgrade {
 		script.WriteString("Connection: Upgrade\r\nUpgrade: verif-proto\r\n")
 	}
-	if p.ConnClose {
+	if p.CloseKind == 1 {
 		script.WriteString("Connection: close\r\n")
+	}
+	if p.Expect100 > 0 {
+		script.WriteString("Expect: 100-continue\r\n")
 	}
 	body := genTail(rand.New(rand.NewSource(p.TailSeed^1)), "text", p.BodyLen)
 	if p.Method == "POST" {
-		fmt.Fprintf(&script, "Content-Length: %d\r\n\r\n%s", len(body), body)
+		fmt.Fprintf(&script, "Content-Length: %d\r\n\r\n", len(body))
+		if p.Expect100 == 1 {
+			cuts = append(cuts, script.Len())
+		}
+		script.Write(body)
 	} else {
 		script.WriteString("\r\n")
 	}
 	methods = append(methods, p.Method)
+	expect = append(expect, p.Expect100 > 0)
 	boundary := script.Len()
-	preLen := 0 // bytes of the ordinary requests in front of the hijacking request
-	for k := 0; k < p.Pre; k++ {
-		preLen += len(fmt.Sprintf("GET /pre/%d HTTP/1.1\r\nHost: example.com\r\n\r\n", k))
-	}
 	trnd := rand.New(rand.NewSource(p.TailSeed))
 	tail := genTail(trnd, p.TailKind, p.TailLen)
 	tail2 := genTail(trnd, p.TailKind, p.Tail2Len)
@@ -381,17 +420,23 @@ func runCase(p plan, rnd *rand.Rand) (probs []problem, inc string, info map[stri
 		}
 		frag = netx.FragBoundaries([]int{b})
 	}
-	first := script.Bytes()
-	var second []byte // sent when the server has answered everything in front and asks for more
-	if p.PreWait {
-		first, second = script.Bytes()[:preLen], script.Bytes()[preLen:]
+	// the client's writes: one piece per pause; a piece is sent when the server has consumed everything and asks for more
+	var pieces [][]byte
+	last := 0
+	for _, c := range cuts {
+		if c > last {
+			pieces = append(pieces, script.Bytes()[last:c])
+			last = c
+		}
 	}
-	tc := &tagConn{Scripted: netx.NewScripted(first, frag), closeCh: make(chan struct{})}
+	pieces = append(pieces, script.Bytes()[last:])
+	tc := &tagConn{Scripted: netx.NewScripted(pieces[0], frag), closeCh: make(chan struct{})}
+	pieces = pieces[1:]
 	hs := &hijackState{started: make(chan struct{}), done: make(chan struct{})}
 	released := make(chan struct{})
 	var tail2Given atomic.Bool
 	var keeperGoid atomic.Uint64
-	if p.Tail2Len > 0 || p.PreWait {
+	if p.Tail2Len > 0 || len(pieces) > 0 {
 		tc.OnStarve = func() []byte {
 			// the client reacts to what the hijack handler wrote: only a read made by
 			// the handler (or the keeper of the kept conn) can see the second part
@@ -399,8 +444,9 @@ func runCase(p plan, rnd *rand.Rand) (probs []problem, inc string, info map[stri
 			select {
 			case <-hs.started:
 			default:
-				if b := second; b != nil {
-					second = nil // (only the serving goroutine reads before the hand-over)
+				if len(pieces) > 0 { // (only the serving goroutine reads before the hand-over)
+					b := pieces[0]
+					pieces = pieces[1:]
 					return b
 				}
 				return nil
@@ -456,8 +502,15 @@ func runCase(p plan, rnd *rand.Rand) (probs []problem, inc string, info map[stri
 		if bytes.HasPrefix(ctx.Path(), []byte("/pre/")) {
 			ctx.SetBodyString("pre:" + string(ctx.Path()))
 			var k int
-			if _, err := fmt.Sscanf(string(ctx.Path()), "/pre/%d", &k); err == nil && k < len(p.PreKinds) && p.PreKinds[k] == 1 {
-				ctx.HijackSetNoResponse(true) // no hijack follows: the flag must neither suppress this response nor survive into the next request
+			if _, err := fmt.Sscanf(string(ctx.Path()), "/pre/%d", &k); err == nil && k < len(p.PreKinds) {
+				switch p.PreKinds[k] {
+				case 1:
+					ctx.HijackSetNoResponse(true) // no hijack follows: the flag must neither suppress this response nor survive into the next request
+				case 2:
+					if want := fmt.Sprintf("pre-body-%d-%s", k, strings.Repeat("b", 1+(p.Case+k)%200)); string(ctx.PostBody()) != want {
+						ctx.SetBodyString("pre: request body differs from what the client sent")
+					}
+				}
 			}
 			return
 		}
@@ -468,6 +521,12 @@ func runCase(p plan, rnd *rand.Rand) (probs []problem, inc string, info map[stri
 		} else {
 			ctx.SetBody(respBody)
 		}
+		switch p.CloseKind {
+		case 5:
+			ctx.SetConnectionClose()
+		case 6:
+			ctx.Response.SetConnectionClose()
+		}
 		ctx.SetUserValue("verif-release-probe", releaseProbe{released})
 		ctx.Hijack(hj)
 		if p.NoResp {
@@ -476,6 +535,12 @@ func runCase(p plan, rnd *rand.Rand) (probs []problem, inc string, info map[stri
 	}
 	srv := &fasthttp.Server{Handler: handler, ReduceMemoryUsage: p.RMU, KeepHijackedConns: p.Keep,
 		ReadBufferSize: p.ReadBuf, WriteBufferSize: p.WriteBuf, Logger: nopLogger{}}
+	switch p.CloseKind {
+	case 3:
+		srv.DisableKeepalive = true
+	case 4:
+		srv.MaxRequestsPerConn = p.Pre + 1
+	}
 	// Timeouts only arm deadlines here (the scripted conn never blocks); what matters is which
 	// deadlines are still armed when the connection changes hands.
 	const long = time.Hour
@@ -517,8 +582,9 @@ func runCase(p plan, rnd *rand.Rand) (probs []problem, inc string, info map[stri
 		return probs, "", info
 	}
 	closedByServe, _ := tc.Closed()
-	if p.ConnClose {
-		// documented: the hijack handler is skipped when 'Connection: close' is present. Not part of the statement; observed only.
+	if p.CloseKind > 0 && !p.NoResp {
+		// A hijack that wants its response on a connection marked to close: the server ends the connection after the
+		// response instead of handing it over (documented for 'Connection: close'). Not part of the statement; observed only.
 		info["connclose"] = true
 		if !closedByServe {
 			// the server kept its hands off the conn: it was hijacked after all (HijackSetNoResponse skips the close check)
@@ -535,7 +601,18 @@ func runCase(p plan, rnd *rand.Rand) (probs []problem, inc string, info map[stri
 		select {
 		case <-hs.started:
 		default:
-			add("hijack-handler-not-called", fmt.Sprintf("ServeConn returned %v and closed the conn without running the hijack handler; wire %s", serveErr, mon.Short(tc.Written(), 300)))
+			key := "hijack-handler-not-called"
+			anyExpect := p.Expect100 > 0
+			for _, k := range p.PreKinds {
+				anyExpect = anyExpect || k == 2
+			}
+			switch {
+			case p.CloseKind > 0:
+				key = "noresponse-hijack-skipped-on-closing-connection" // narrow class: HijackSetNoResponse hijack, connection marked to close after this request
+			case anyExpect:
+				key = "request-after-100-continue-body-lost" // narrow class: bytes that arrived in one read with a 100-continue body never reached the request parser
+			}
+			add(key, fmt.Sprintf("ServeConn returned %v and closed the conn without running the hijack handler; wire %s", serveErr, mon.Short(tc.Written(), 300)))
 			return probs, "", info
 		}
 	}
@@ -637,11 +714,20 @@ func runCase(p plan, rnd *rand.Rand) (probs []problem, inc string, info map[stri
 	// 1. response fully written before the handler started
 	all := tc.Written()
 	nresp := p.Pre + 1
-	if p.NoResp {
-		nresp = p.Pre
-	}
 	off := 0
 	for k := 0; k < nresp; k++ {
+		if expect[k] && off >= 0 && off < len(all) {
+			// the interim response the server sends before it reads the body
+			ms, _ := h1.ParseResponses(all[off:], []string{methods[k]})
+			if ms[0].Fatal == "" && ms[0].Status == 100 {
+				off += ms[0].End
+			} else {
+				add("continue-response-missing", fmt.Sprintf("request %d carried Expect: 100-continue; wire at %d: %s", k+1, off, mon.Short(all[off:], 120)))
+			}
+		}
+		if k == p.Pre && p.NoResp {
+			break
+		}
 		staleFlag := false
 		for j := 0; j < k && j < len(p.PreKinds); j++ {
 			staleFlag = staleFlag || p.PreKinds[j] == 1
@@ -706,6 +792,8 @@ func runCase(p plan, rnd *rand.Rand) (probs []problem, inc string, info map[stri
 	if !bytes.Equal(got, expected) {
 		key := "hijack-bytes-mismatch"
 		switch {
+		case len(got) < len(expected) && bytes.HasSuffix(expected, got) && p.Expect100 == 1:
+			key = "hijack-bytes-lost-after-100-continue-body" // narrow class: the tail bytes that came in one write with the 100-continue body
 		case len(got) < len(expected) && bytes.HasSuffix(expected, got):
 			key = "hijack-bytes-lost-prefix"
 		case len(got) < len(expected) && bytes.HasPrefix(expected, got):
@@ -823,11 +911,11 @@ func sizeClass(n int) string {
 func TestC17(t *testing.T) {
 	r := mon.Start(t, "C17")
 	defer r.Finish()
-	r.Rule("case = ServeConn over a scripted conn: 0-3 ordinary requests (each handler plain or calling HijackSetNoResponse(true) without hijacking; pipelined with, or answered before, the hijacking request), a hijacking request (GET/POST+body/HEAD, optional Upgrade/101, response body 0-20000 bytes, HijackSetNoResponse 1/3) and a PRNG tail of 0-65536 bytes (random/http-like/CRLF/text) plus an optional second part sent only after the handler's first write; ReduceMemoryUsage, KeepHijackedConns, Read/WriteBufferSize, Server.ReadTimeout/WriteTimeout/IdleTimeout zero or not, HeaderReceived absent or returning per-request Read/WriteTimeout, and the fragmentation plan (everything per Read, boundary exactly at the request end, k bytes into the tail, k bytes before the end, fixed n) vary; the hijack handler writes, reads to EOF with PRNG read sizes, writes, optionally closes; in keep mode it may stop early and the kept conn is read to EOF afterwards. distinct = (options, method, fragmentation mode, tail size class, how many tail bytes were already consumed from the conn at hand-over: none/part/all, second part, close variants); non-trivial = tail non-empty")
+	r.Rule("case = ServeConn over a scripted conn: 0-3 ordinary requests (plain, or handler calling HijackSetNoResponse(true) without hijacking, or POST with Expect: 100-continue whose body is sent in one write with everything that follows; pipelined with, or answered before, the hijacking request), a hijacking request (GET/POST+body/HEAD, POST optionally with Expect: 100-continue and body+tail sent in one write after 100 Continue, 1/4 on a connection marked to close by one of six ways (Connection: close, HTTP/1.0, DisableKeepalive, MaxRequestsPerConn, ctx/Response.SetConnectionClose) mostly with HijackSetNoResponse, optional Upgrade/101, response body 0-20000 bytes, HijackSetNoResponse 1/3) and a PRNG tail of 0-65536 bytes (random/http-like/CRLF/text) plus an optional second part sent only after the handler's first write; ReduceMemoryUsage, KeepHijackedConns, Read/WriteBufferSize, Server.ReadTimeout/WriteTimeout/IdleTimeout zero or not, HeaderReceived absent or returning per-request Read/WriteTimeout, and the fragmentation plan (everything per Read, boundary exactly at the request end, k bytes into the tail, k bytes before the end, fixed n) vary; the hijack handler writes, reads to EOF with PRNG read sizes, writes, optionally closes; in keep mode it may stop early and the kept conn is read to EOF afterwards. distinct = (options, method, fragmentation mode, tail size class, how many tail bytes were already consumed from the conn at hand-over: none/part/all, second part, close variants); non-trivial = tail non-empty")
 	r.Assume("h1 reference decides the request boundary and response framing; goroutine ids taken from runtime.Stack attribute conn operations; 'the server is done' = the goroutine that ran the hijack handler no longer exists")
 	r.Assume("deadlines are observed, not waited for: every Set*Deadline call on the conn is logged; at the start of the hijack handler the last read and the last write deadline set by the server must be zero (or never set) and no deadline call may follow; the handler itself sets none")
-	r.Assume("requests with 'Connection: close' (documented: hijack handler skipped) are executed but not judged (events connclose_*)")
-	n := r.N(8000, 40000)
+	r.Assume("hijacks that want their response on a connection marked to close (documented for 'Connection: close': hijack handler skipped) are executed but not judged (events connclose_*); HijackSetNoResponse hijacks on such a connection are judged like any other; CloseOnShutdown during Shutdown is not generated")
+	n := r.N(8000, 25000)
 	mon.Parallel(n, 0, func(i int) {
 		if !r.Want(i) {
 			return
@@ -855,8 +943,24 @@ func TestC17(t *testing.T) {
 		case buffered > 0:
 			bclass = "part"
 		}
-		class := fmt.Sprintf("rmu=%v keep=%v noresp=%v m=%s up=%v pre=%v/%v frag=%s tail=%s buf=%s t2=%v hc=%v kt=%v rb=%d to=%v%v%v/%d", p.RMU, p.Keep, p.NoResp, p.Method, p.Upgrade, p.PreKinds, p.PreWait, p.FragMode, sizeClass(p.TailLen), bclass, info["tail2"], p.HandlerClose, p.KeepTail, p.ReadBuf, p.SrvRead, p.SrvWrite, p.SrvIdle, p.HdrRecv)
+		class := fmt.Sprintf("rmu=%v keep=%v noresp=%v m=%s up=%v pre=%v/%v frag=%s tail=%s buf=%s t2=%v hc=%v kt=%v rb=%d to=%v%v%v/%d ck=%d e100=%d", p.RMU, p.Keep, p.NoResp, p.Method, p.Upgrade, p.PreKinds, p.PreWait, p.FragMode, sizeClass(p.TailLen), bclass, info["tail2"], p.HandlerClose, p.KeepTail, p.ReadBuf, p.SrvRead, p.SrvWrite, p.SrvIdle, p.HdrRecv, p.CloseKind, p.Expect100)
 		r.Case(class, p.TailLen > 0)
+		if p.CloseKind > 0 {
+			r.Event(fmt.Sprintf("closing_noresponse_handovers_kind%d", p.CloseKind), 1)
+			r.Event("closing_noresponse_handovers", 1)
+		}
+		if p.Expect100 > 0 {
+			r.Event("expect100_hijacks", 1)
+			if p.Expect100 == 1 && p.RMU {
+				r.Event("expect100_hijacks_body_and_tail_in_one_write_rmu", 1)
+			}
+		}
+		for _, k := range p.PreKinds {
+			if k == 2 {
+				r.Event("expect100_requests_in_front", 1)
+				break
+			}
+		}
 		r.Event("handovers_checked", 1)
 		if c, ok := info["deadline_calls"].(int); ok {
 			r.Event("deadline_calls_recorded", c)
@@ -899,4 +1003,7 @@ func TestC17(t *testing.T) {
 	r.Require("tail_bytes_compared", n*100)
 	r.Require("handovers_after_armed_deadline", n/4)
 	r.Require("hijack_with_response_after_noresponse_flag", n/10)
+	r.Require("closing_noresponse_handovers", n/10)
+	r.Require("expect100_hijacks_body_and_tail_in_one_write_rmu", n/40)
+	r.Require("expect100_requests_in_front", n/10)
 }
